@@ -471,7 +471,9 @@ class ScoreToRankedVotes:
         if self.unscored_value is not None:
             unscored = all_candidates.difference(cand for cand, score in vote)
             if unscored:
-                vote |= ((cand, self.unscored_value) for cand in unscored)
+                vote |= frozenset(
+                    (cand, self.unscored_value) for cand in unscored
+                )
         sorted_iter = sorted(vote, key=key_fx)
         ranked = []
         for score, tuple_iter in itertools.groupby(sorted_iter, key=key_fx):
